@@ -7,12 +7,12 @@
 EXTENDS BclVM, Json
 CONSTANTS MaxInstr
 R(t, i, raw) == [t |-> t, i |-> i, raw |-> raw]
-\* constant pool of every assembled file (indices 0..7)
+\* constant pool of every assembled file (indices 0..8)
 Consts == << R("str", 0, <<97>>), R("int", 5, <<>>), R("float", 0, <<64, 4, 0, 0, 0, 0, 0, 0>>),          \* "a", 5, 2.5
              R("int", -1, <<255, 255, 255, 255, 255, 255, 255, 255, 253>>), R("bool", 1, <<>>), R("nil", 0, <<>>),   \* -3, true, nil
-             R("str", 0, <<>>), R("str", 0, <<98>>) >>                                                       \* "", "b"
+             R("str", 0, <<>>), R("str", 0, <<98>>), R("bool", 0, <<>>) >>                                   \* "", "b", false
 I(op, a, b) == [op |-> op, a |-> a, b |-> b]
-Pool == { I("CONST", k, 0) : k \in 0..5 } \cup { I(o, 0, 0) : o \in {"NIL", "ZERO", "ONE", "TRUE", "FALSE", "NOT", "NEG", "UNPLUS",
+Pool == { I("CONST", k, 0) : k \in {0, 1, 2, 3, 4, 5, 8} } \cup { I(o, 0, 0) : o \in {"NIL", "ZERO", "ONE", "TRUE", "FALSE", "NOT", "NEG", "UNPLUS",
             "EQ", "LT", "GT", "ADD", "SUB", "MUL", "DIV", "POP", "PRINT", "NOP", "ENDBLOCK"} }
           \cup { I("POPN", 2, 0), I("GETLOCAL", 0, 0), I("SETLOCAL", 0, 0), I("GETLOCAL", 1, 0),
                  I("JUMP", 0, 0), I("JUMP", 1, 0), I("JUMP", 3, 0), I("JFALSE", 0, 0), I("JFALSE", 1, 0), I("JFALSE", 2, 0), I("JFALSE", 4, 0), I("LOOP", 4, 0), I("LOOP", 3, 0),
